@@ -86,6 +86,23 @@ func c17Dir() *c17Inst {
 	return &c17Inst{s: s, ls: ls, root: root, rootN: rn, names: names, via: "unixfs"}
 }
 
+// c17DirMissing: the same directory with the first child shard on the hash
+// path of names[0] (shared by names[1], names[2]) unavailable: concurrent calls
+// that need it must each report the load error they report alone.
+func c17DirMissing() *c17Inst {
+	i := c17Dir()
+	hm, err := model.Hamt(i.s, i.root)
+	if err != nil {
+		panic(err)
+	}
+	path, _ := hm.HashPath(i.names[0])
+	if len(path) == 0 {
+		panic("c17DirMissing: no child shard on the hash path")
+	}
+	i.s.Missing = map[string]store.ErrKind{string(path[0].Hash()): store.NotFound}
+	return i
+}
+
 func c17File() *c17Inst {
 	c := fileCase{Writer: "ours", W: 2, Chunker: "size-3", L: 13, K: 3, Pattern: "distinct"}
 	s, root, _, err := c.build()
@@ -276,6 +293,14 @@ func c17Scenarios(quick bool) []c17Scenario {
 		{Name: "S11-file-bytes-and-reader", Threads: 2, Bounds: b2, setup: c17File,
 			bodies: func(i *c17Inst, n datamodel.Node) []func() string {
 				return []func() string{asBytesBody(n), readAllBody(n, 6)}
+			}},
+		{Name: "S12-unavailable-child-shard-two-lookups-and-length", Threads: 3, Bounds: b3small, setup: c17DirMissing,
+			bodies: func(i *c17Inst, n datamodel.Node) []func() string {
+				return []func() string{lookupBody(n, i.names[0]), lookupBody(n, i.names[1]), lengthBody(n)}
+			}},
+		{Name: "S13-unavailable-child-shard-iterate-and-lookup", Threads: 2, Bounds: b2, setup: c17DirMissing,
+			bodies: func(i *c17Inst, n datamodel.Node) []func() string {
+				return []func() string{iterBody(n), lookupBody(n, i.names[2])}
 			}},
 		{Name: "S6-preloaded-file-two-readers", Threads: 2, Bounds: b2, setup: func() *c17Inst { i := c17File(); i.via = "unixfs-preload"; return i },
 			bodies: func(i *c17Inst, n datamodel.Node) []func() string {
